@@ -18,6 +18,7 @@ type Scenario struct {
 	Input  map[string]any
 	RawInput  any // if set, this (possibly invalid, possibly non-map) document is passed to Execute instead of Input
 	NormInput any // if set, the schema-normalised input the reference and the trace oracles work with
+	ParseOnly bool // the execution under exploration is Prepare (with Script applied to the schema probes), not Execute
 	Ref    *RefRun
 	pw     workflow.ExecutableWorkflow
 	prepErr error
@@ -251,6 +252,50 @@ func progUnrelatedHang() *Program {
 	}, Outputs: []Output{{"success", O("r", E(sv("a")))}}}
 }
 
+// a consumer of a producer's starting.started next to an unrelated step that never ends
+func progStartedHang() *Program {
+	return &Program{Name: "startedhang", Steps: []Step{
+		pstep("a", O("v", E("$.input.n"))),
+		{ID: "b", Input: O("v", I(3)), WaitFor: E("$.steps.a.starting.started")},
+		{ID: "h", Input: O("v", I(0)), ClosureMS: I(50)},
+	}, Outputs: []Output{{"success", O("r", E(sv("b")))}}}
+}
+
+// literal (non-expression) enabled values: YAML scalars reach the provider as strings
+func progEnabledLit(name string, lit any) *Program {
+	return &Program{Name: name, Steps: []Step{
+		{ID: "a", Input: O("v", E("$.input.n")), Enabled: Lit{lit}},
+		{ID: "b", Input: O("v", I(2)), WaitFor: E("$.steps.a.outputs.success")},
+	}, Outputs: []Output{
+		{"success", O("r", E(sv("b")), "q", E(sv("a")))},
+		{"off", O("m", E("$.steps.a.disabled.output.message"))}}}
+}
+
+// hangScenarios: step h never ends (it has to be closed by the engine) while the other steps take
+// every outcome; the quick tier's other vectors have no never-ending step
+func hangScenarios() []*Scenario {
+	var out []*Scenario
+	alts := []stepAlt{altsBasic[0], altsBasic[1], altsBasic[2], altsBasic[3], {"mismatch", env.StepScript{Run: env.RunSchemaMismatch}}, {"schemafail", env.StepScript{ReadSchemaFails: true}}}
+	for _, p := range []*Program{progUnrelatedHang(), progStartedHang()} {
+		others := &Program{Name: p.Name}
+		for _, st := range p.Steps {
+			if st.ID != "h" {
+				others.Steps = append(others.Steps, st)
+			}
+		}
+		for _, hk := range []stepAlt{{"hang", env.StepScript{Run: env.RunHangCancel}}, {"hangx", env.StepScript{Run: env.RunHangIgnore}}} {
+			for _, sc := range vectors(others, alts, 40) {
+				h := hk.sc
+				sc.Steps["h"] = &h
+				s := &Scenario{Class: p.Name, Prog: p, Script: sc, Input: map[string]any{"n": 5}}
+				s.Name = p.Name + "/" + vecName(sc) + "/" + canonStr(s.Input)
+				out = append(out, s)
+			}
+		}
+	}
+	return out
+}
+
 // programs for the cancellation driver
 func cancelPrograms() []*Program {
 	noSig := func(p *Program, name string) *Program {
@@ -350,6 +395,7 @@ func catalogue() []*Program {
 		progLoopSibling(),
 		progDeployDep(),
 		progSumExpr(), progSumExpr2(), progSumInts(), progStopEnable(),
+		progEnabledLit("enabledlit-false", false), progEnabledLit("enabledlit-true", true), progEnabledLit("enabledlit-no", "no"),
 		progSingle(), progChain(2), progChain(3), progFanIn(), progDiamond(), progMultiOut(), progMultiOut2(),
 		progWaitStarted(), progEnabled(), progEnabledChain(), progStopInput(), progStopProducer(), progDeployExpr(),
 		progOptional(), progSoftOptional(), progOptionalInput(), progOneOf(), progOneOf2(),
@@ -379,6 +425,8 @@ var altsMore = []stepAlt{
 	{"mismatch", env.StepScript{Run: env.RunSchemaMismatch}},
 	{"deployhang", env.StepScript{Deploy: env.DeployHang}},
 	{"slow", env.StepScript{RunMS: 35, DeployMS: 3}},
+	{"schemafail", env.StepScript{ReadSchemaFails: true}},
+	{"closefail", env.StepScript{ClientCloseFail: true, ConnCloseFails: true}},
 }
 
 // pluginIDs lists the plugin step ids of a program including sub-workflows.
